@@ -304,7 +304,10 @@ def run(repo: Repo, rep: Report, tier: str) -> None:
         rep.ok("C02-R11", "get_wire_color_for_edge has no fixed default", "no constant colour is returned", gw.loc())
     for st in fixed:
         direct_default = isinstance(st.value, ast.Call)
-        ok11 = (not direct_default) and any(ggw.dominates(sc, st) for sc in scans)
+        # ... and what the scan found is used: some return between the scan and the default answers with a colour taken from the scanned edges
+        used = [r for r in ggw.stmts() if isinstance(r, ast.Return) and r.value is not None and not isinstance(r.value, ast.Constant)
+                and "_edge_wire_colors.items()" in cgw.text(r.value) and any(ggw.dominates(sc, r) for sc in scans)]
+        ok11 = (not direct_default) and any(ggw.dominates(sc, st) for sc in scans) and bool(used)
         rep.check(ok11, "C02-R11", "get_wire_color_for_edge: the fixed default is used only after the edges between the two entities were consulted",
                   "a scan of the recorded edges dominates the default" if ok11 else
                   f"`{norm(st)[:70]}` answers `red` for any name that is not an edge name: `b * c[\"coal\"]` reads coal on red while c arrives on green, the product is 0", gw.loc(st))
